@@ -294,6 +294,35 @@ def run(prop, tier):
                 ctx.violation("look-back: clocks=%r regions=%r: %s" % (c[0], c[1], msg),
                               {"engine": "E6 real ovnisort", "clocks": c[0], "regions": c[1], "n": c[2]}, {"kind": "lookback"})
         ctx.part("lookback", cases=len(lb))
+        # small windows with two streams: the first stream holds more events than the window (the ring has wrapped when the
+        # second stream starts), the second has a region that belongs at its very beginning
+        lb2 = [(cl, pl, n) for (cl, pl) in two for n in (5, 6, 8) if pl and pl[0][0] == 0 and pl[0][1] > 0]
+
+        def one_lb2(c):
+            cl, pl, n = c
+            td = os.path.join(base, "m%d" % os.getpid())
+            shutil.rmtree(td, ignore_errors=True)
+            first = build_stream((0, 1, 2, 2, 3, 3, 4, 5), ((1, 3),), 100)
+            second = build_stream(cl, pl, 200, 1, head_region=True)
+            streams = [(obs.relpath("L", 10, 100), first, True), (obs.relpath("L", 10, 200), second, False)]
+            for rel, evs, isfirst in streams:
+                obs.write_stream(td, rel, meta(int(rel.split(".")[-1]), isfirst), enc_all(evs))
+            need = max(lookback_needed(e) for _, e, _ in streams)
+            rc, o, err = emusrv.run_tool(srt, ["-n", str(n), td])
+            if rc not in (0, 1):
+                return "ovnisort -n %d died (exit %r): %s" % (n, rc, err[-200:])
+            ok = all(open(os.path.join(td, rel, "stream.obs"), "rb").read() == enc_all(stable_sorted(evs)) for rel, evs, _ in streams)
+            if rc == 0 and not ok:
+                return "ovnisort -n %d exits 0 but a stream is not the stable sort of its events" % n
+            if rc != 0 and need <= n - 3:
+                return "ovnisort -n %d fails although every region needs at most %d events of look-back: %s" % (n, need, err[-160:])
+            return None
+        for c, msg in zip(lb2, pmap(one_lb2, lb2)):
+            ctx.add(evaluations=1, transitions=1)
+            if msg:
+                ctx.violation("look-back, two streams: second stream clocks=%r regions=%r: %s" % (c[0], c[1], msg),
+                              {"engine": "E6 real ovnisort", "clocks": c[0], "regions": c[1], "n": c[2], "streams": 2}, {"kind": "lookback-2"})
+        ctx.part("lookback-two-streams", cases=len(lb2))
         # many streams: a trace of 60 threads (regions in every seventh one) sorted, checked and emulated by tools that may hold
         # only 40 descriptors at a time - what a trace of thousands of threads is to the usual limit of 1024
         def many(_):
